@@ -140,6 +140,22 @@ func Sets() []*Set {
 		Attrs: []string{"title"}, Vals: []string{"x"}, MaxRank: 4,
 		Quick: true, DupsThorough: ""})
 
+	// 3d. a delete claim of the permanode DATED BETWEEN (or before) two attribute claims:
+	// delete claims of a permanode live in its claim list, which must stay sorted by date
+	// whatever the arrival order (the attribute readers trust the last claim to be the newest).
+	titleOne := A.SetAttr("set-title-one", pn.Ref, "title", "one", T(1))
+	titleTwo := A.SetAttr("set-title-two", pn.Ref, "title", "two", T(3))
+	delPnMid := A.Delete("del-pn-mid", pn.Ref, T(2))
+	add(&Set{Name: "delete-dated-between", Blobs: []hs.Blob{A.Pub, pn, titleOne, titleTwo, delPnMid},
+		Attrs: []string{"title"}, Vals: []string{"one", "two"}, MaxRank: 3,
+		Quick: true, DupsQuick: "", DupsThorough: "ends"})
+	titleOne2 := A.SetAttr("set-title-one", pn.Ref, "title", "one", T(2))
+	delPnEarly := A.Delete("del-pn-early", pn.Ref, T(1))
+	undelEarly := A.Delete("del-del-pn-early", delPnEarly.Ref, T(4))
+	add(&Set{Name: "delete-dated-before", Blobs: []hs.Blob{A.Pub, pn, titleOne2, titleTwo, delPnEarly, undelEarly},
+		Attrs: []string{"title"}, Vals: []string{"one", "two"}, MaxRank: 4,
+		Quick: false, DupsThorough: ""})
+
 	// 4. attribute history on one permanode arriving in any date order (incremental
 	// attribute cache vs sort at load)
 	addA := A.AddAttr("add-tag-a", pn.Ref, "tag", "a", T(1))
